@@ -993,12 +993,21 @@ func VH03g_burst() {
 		}
 		return ids
 	}
+	// parameter "perm": the K events are an ordered selection (any order, settling after each), so that one
+	// stalled goroutine can be overtaken by a whole sequence of steps; otherwise an unordered set
+	perm := verif.Param("perm", 0) == 1
+	used := map[int]bool{}
 	last := -1
 	for k := 0; k < K; k++ {
 		ev := verif.Choice("ev", 7)
-		verif.Assume(ev > last || ev == 3) // an unordered set of events (connections may repeat)
-		if ev != 3 {
-			last = ev
+		if perm {
+			verif.Assume(!used[ev] || ev == 3)
+			used[ev] = true
+		} else {
+			verif.Assume(ev > last || ev == 3) // an unordered set of events (connections may repeat)
+			if ev != 3 {
+				last = ev
+			}
 		}
 		switch ev {
 		case 0:
@@ -1034,7 +1043,7 @@ func VH03g_burst() {
 			recvs = append(recvs, x)
 			x.g = verif.Go("recv", func() { x.m, x.err = r.recvMsg() })
 		}
-		if verif.Choice("settle", 2) == 1 {
+		if perm || verif.Choice("settle", 2) == 1 {
 			verif.QuiesceKeep()
 		}
 	}
